@@ -176,6 +176,16 @@ def vspecStep (st : DState) (toks : List String) (o : Out) (nextVerBefore : Nat)
     (match vb st (fromHex b) with
      | some v => (setVb st (fromHex b) (Spec.Versions.put v (fromHex k) (nextVerBefore + 1) (fromHex body)), "ok")
      | none => (st, "err NoSuchBucket"))
+  | ["copy", sb, sk, db_, dk, _] =>
+    -- a copy inside one bucket is an upload of the source's current bytes to the destination
+    if sb != db_ then (st, "?") else
+    (match vb st (fromHex sb) with
+     | some v =>
+       (match Spec.Versions.get v (fromHex sk) with
+        | .ok body => (setVb st (fromHex sb) (Spec.Versions.put v (fromHex dk) (nextVerBefore + 1) body), "ok")
+        | .err c => (st, s!"err {c.name}")
+        | .panic _ => (st, "panic"))
+     | none => (st, "err NoSuchBucket"))
   | ["del", b, k] =>
     (match vb st (fromHex b) with
      | some v => (setVb st (fromHex b) (Spec.Versions.delete v (fromHex k) (nextVerBefore + 1)), "ok")
